@@ -190,6 +190,12 @@ func checkC18(c *Check) {
 	values["plain"] = "word"
 	values["inner-newline"] = "l1\nl2"
 	values["tab"] = "a\tb"
+	// white space next to a line break inside one argument: a value spans several physical lines of the emitted script,
+	// where a pass over the script text (trimming line ends, re-indenting) meets it
+	for k, v := range map[string]string{"blank-before": "a \nb", "tab-before": "a\t\nb", "only-blank-before": " \ny", "blank-after": "a\n b", "tab-after": "a\n\tb",
+		"blank-lines-between": "l1  \n\n  l3", "blanks-both-ends-of-lines": " a \n b ", "cr-before": "a\r\nb"} {
+		values["ws-newline-"+k] = v
+	}
 	vnames := sortedKeys(func() map[string]string {
 		m := map[string]string{}
 		for k := range values {
@@ -202,7 +208,7 @@ func checkC18(c *Check) {
 		v := values[vn]
 		for _, form := range forms {
 			for _, pos := range []string{"sole", "first", "last", "middle"} {
-				if !c.Thorough() && r.Intn(5) != 0 {
+				if !c.Thorough() && r.Intn(5) != 0 && !strings.HasPrefix(vn, "ws-newline-") {
 					continue
 				}
 				b := newC18()
@@ -318,6 +324,26 @@ func checkC18(c *Check) {
 			bc.Tools[tool] = probePath()
 		}
 		add(bc)
+	}
+	// program paths holding characters the shell gives a meaning to: the program of exactly that name runs, once, with
+	// the arguments given; nothing else runs (a decoy p_rec2 would leave its own log), no file appears
+	for mi, meta := range []string{";", "&", "|", ">", "<", "(", ")", "*", "?", "[a]", "{a,b}", "~", "#", "'", "!", "=", "\t", "&&", ";p_rec2;", ">out", "|p_rec2"} {
+		for _, capture := range []bool{false, true} {
+			b := newC18()
+			name := "./p_rec" + meta + "z"
+			st := AppStage{Name: name, NameLit: true, Args: []Expr{sl("a"), sl("b c")}}
+			var body []Stmt
+			if capture {
+				body = []Stmt{VarDecl{Names: []string{"o", "e", "code"}, Short: true, Values: []Expr{AppCall{[]AppStage{st}}}}, pr(framed(vr("o")), vr("code"))}
+			} else {
+				body = []Stmt{ExprStmt{AppCall{[]AppStage{st}}}, pr(sl("done"))}
+			}
+			bc := b.finish(fmt.Sprintf("progname-meta/%d/%s/capture=%v", mi, hexKey(meta), capture), body...)
+			bc.Tools[filepath.Base(name)] = probePath()
+			bc.Tools["p_rec2"] = probePath()
+			bc.Tools["p_rec"] = probePath()
+			add(bc)
+		}
 	}
 	// a program given by a path is run from that path and from nowhere else: the working directory is not in
 	// PATH here, and PATH holds another program of the same base name that records under another name
